@@ -91,6 +91,8 @@ EmitPathFaults ==
        \/ (ps[1].p = "root" /\ Out(ParseErr(t \o <<63, 40, 64, 61, 61, 41>>)))   \* dangling operator  ?(@==)
        \/ (ps[1].p = "root" /\ Out(ParseErr(t \o <<63, 40, 38, 38, 64, 61, 61, 49, 41>>)))  \* ?(&&@==1)
        \/ (ps[1].p = "root" /\ Out(ParseErr(t \o <<46>>))) \/ (ps[1].p = "root" /\ Out(ParseErr(t \o <<46, 46, 97>>)))
+       \* a dangling sign or operator is never part of a name
+       \/ (ps[1].p = "root" /\ ps[Len(ps)].p \in {"dot", "colon"} /\ \E c \in {45, 43, 42, 47, 37} : Out(ParseErr(t \o <<c>>)))
 
 \* a stand-alone predicate speaks about the root only: `@` has no meaning there, however deep inside
 \* parentheses, && / || or exists( ) it is written
